@@ -580,6 +580,15 @@ func (env *specEnv) call(e *ast.CallExpr) Value {
 				}
 				n := len(x.E.layout(tup.At(idx).Type()))
 				return Value{T: tup.At(idx).Type(), L: append([]Term(nil), v.L[lo:lo+n]...)}
+			case "ufbyte":
+				// ufbyte("name", i): the i-th byte of an immutable, unconstrained byte string
+				name := "ufb_" + sanitize(strings.Trim(exprString(e.Args[0]), `"`))
+				x.C.DeclareFun(name, []Sort{SBV64}, SBV8)
+				return Value{T: types.Typ[types.Uint8], L: []Term{app(SBV8, name, env.toBV64(env.eval(e.Args[1])))}}
+			case "ufint":
+				name := "ufi_" + sanitize(strings.Trim(exprString(e.Args[0]), `"`))
+				t := x.C.Declare(name, SBV64)
+				return Value{T: types.Typ[types.Int], L: []Term{t}}
 			case "sameptr":
 				a, b := env.eval(e.Args[0]), env.eval(e.Args[1])
 				return Value{T: types.Typ[types.Bool], L: []Term{And(Eq(a.L[0], b.L[0]), Eq(a.L[1], b.L[1]))}}
@@ -727,6 +736,9 @@ func (env *specEnv) quantifier(forall bool, fl *ast.FuncLit) Value {
 		inner = inner.with(nm.Name, v)
 	}
 	ret := fl.Body.List[0].(*ast.ReturnStmt).Results[0]
+	if out, ok := env.expandQuantifier(forall, p, t, ret); ok {
+		return out
+	}
 	x.C.noDefine++
 	body := inner.evalBool(ret)
 	x.C.noDefine--
@@ -737,3 +749,58 @@ func (env *specEnv) quantifier(forall bool, fl *ast.FuncLit) Value {
 }
 
 func (c *Clause) String() string { return fmt.Sprintf("%s %s", c.Kind, c.Text) }
+
+// expandQuantifier: "forall i T :: lo <= i && i < hi ==> P(i)" over a range whose
+// bounds evaluate to small literals is the finite conjunction of its instances
+// (an equivalence, so it is used for assumptions and obligations alike).
+func (env *specEnv) expandQuantifier(forall bool, p *ast.Field, t types.Type, body ast.Expr) (Value, bool) {
+	if len(p.Names) != 1 || !forall || !isInteger(t) {
+		return Value{}, false
+	}
+	call, ok := body.(*ast.CallExpr)
+	if !ok {
+		return Value{}, false
+	}
+	if id, ok := call.Fun.(*ast.Ident); !ok || id.Name != "implies__" {
+		return Value{}, false
+	}
+	guard, ok := call.Args[0].(*ast.BinaryExpr)
+	if !ok || guard.Op != token.LAND {
+		return Value{}, false
+	}
+	name := p.Names[0].Name
+	lo, ok1 := guard.X.(*ast.BinaryExpr)
+	hi, ok2 := guard.Y.(*ast.BinaryExpr)
+	if !ok1 || !ok2 || lo.Op != token.LEQ || hi.Op != token.LSS {
+		return Value{}, false
+	}
+	if id, ok := lo.Y.(*ast.Ident); !ok || id.Name != name {
+		return Value{}, false
+	}
+	if id, ok := hi.X.(*ast.Ident); !ok || id.Name != name {
+		return Value{}, false
+	}
+	lit := func(e ast.Expr) (int64, bool) {
+		v := env.eval(e)
+		if v.Const != nil {
+			n, ok := constant.Int64Val(constant.ToInt(v.Const))
+			return n, ok
+		}
+		if len(v.L) == 1 && strings.HasPrefix(v.L[0].S, "#x") && len(v.L[0].S) <= 18 {
+			n, err := strconv.ParseUint(v.L[0].S[2:], 16, 64)
+			return int64(n), err == nil
+		}
+		return 0, false
+	}
+	l, okl := lit(lo.X)
+	h, okh := lit(hi.Y)
+	if !okl || !okh || h-l > 64 || h < l {
+		return Value{}, false
+	}
+	var cs []Term
+	for i := l; i < h; i++ {
+		inner := env.with(name, env.x.constValue(t, constant.MakeInt64(i)))
+		cs = append(cs, inner.evalBool(call.Args[1]))
+	}
+	return Value{T: types.Typ[types.Bool], L: []Term{And(cs...)}}, true
+}
